@@ -38,6 +38,9 @@ def set : State β → Path → File β → State β
 
 def del (s : State β) (p : Path) : State β := s.filter (fun e => !(e.1 == p))
 
+/-- `shutil.rmtree(p)` / `os.remove(p)`: drop the entry and everything below it. -/
+def delTree (s : State β) (p : Path) : State β := s.filter (fun e => !(p.isPrefixOf e.1))
+
 def isDir (s : State β) (p : Path) : Bool :=
   match get s p with | some .dir => true | _ => false
 
@@ -117,6 +120,28 @@ theorem get_del (s : State β) (p q : Path) :
       simp only [del, List.filter, this, Bool.not_false, get, ih]
       by_cases h2 : a = q
       · subst h2; simp [Ne.symm h]
+      · simp [h2]
+
+theorem get_delTree (s : State β) (p q : Path) :
+    get (delTree s p) q = if p <+: q then none else get s q := by
+  induction s with
+  | nil => simp [delTree, get]
+  | cons e r ih =>
+    obtain ⟨a, g⟩ := e
+    simp only [delTree] at ih
+    by_cases h : p <+: a
+    · have h' : p.isPrefixOf a = true := by simpa using h
+      simp only [delTree, List.filter, h', Bool.not_true, get, ih]
+      by_cases h2 : a = q
+      · subst h2; simp [h]
+      · simp [h2]
+    · have h' : p.isPrefixOf a = false := by
+        cases hb : p.isPrefixOf a with
+        | false => rfl
+        | true => exact absurd (List.isPrefixOf_iff_prefix.mp hb) h
+      simp only [delTree, List.filter, h', Bool.not_false, get, ih]
+      by_cases h2 : a = q
+      · subst h2; simp [h]
       · simp [h2]
 
 /-- A step changes only the entries it targets. -/
